@@ -198,6 +198,7 @@ typedef struct {
   char dec[32];
   char valid[512], corrupt[512];
   int nf, hm, via_iface, mem_garbage, start;
+  long halfk;        // > 0: a "half" supply is exactly this many bytes
   long budget_ms;
   int nsteps;
   step_t steps[MAXSTEPS];
@@ -246,6 +247,7 @@ static int parse_job(char* line, job_t* j) {
     else if (!strcmp(k, "corrupt")) snprintf(j->corrupt, sizeof j->corrupt, "%s", v);
     else if (!strcmp(k, "nf")) j->nf = atoi(v);
     else if (!strcmp(k, "hm")) j->hm = atoi(v);
+    else if (!strcmp(k, "halfk")) j->halfk = atol(v);
     else if (!strcmp(k, "via")) j->via_iface = !strcmp(v, "iface");
     else if (!strcmp(k, "mem")) j->mem_garbage = !strcmp(v, "garbage");
     else if (!strcmp(k, "start")) j->start = atoi(v);
@@ -359,6 +361,9 @@ static void apply_feed(run_t* r, const char* f) {
     size_t rest = r->n - r->supplied;
     size_t k = rest / 2;
     if (k == 0 && rest > 0) k = 1;
+    // halfk=K (job parameter): a "partial" supply is exactly K more bytes - the same abstract action of
+    // WuffsObject.tla ("part"), realised at every small split point (a boundary inside a fixed-size header field)
+    if (r->j->halfk > 0) k = (size_t)r->j->halfk < rest ? (size_t)r->j->halfk : rest;
     r->supplied += k;
   } else if (!strcmp(f, "all")) {
     r->supplied = r->n;
